@@ -56,8 +56,13 @@ pub(crate) fn build(parts: &[&str]) -> Option<Def> {
         "countervec" | "gaugevec" => {
             let ch = field(parts, "children").unwrap_or("none");
             let tuples: Vec<Vec<String>> = if ch == "none" { vec![] } else { ch.split(';').map(unhex_list).collect() };
-            if kind == "countervec" { let v = CounterVec::new(opts_of(&name, &help, &consts), &vnames).ok()?; for (i, t) in tuples.iter().enumerate() { let tv: Vec<&str> = t.iter().map(|s| s.as_str()).collect(); v.get_metric_with_label_values(&tv).ok()?.inc_by((i + 1) as f64); } AnyColl::CV(v) }
-            else { let v = GaugeVec::new(opts_of(&name, &help, &consts), &vnames).ok()?; for (i, t) in tuples.iter().enumerate() { let tv: Vec<&str> = t.iter().map(|s| s.as_str()).collect(); v.get_metric_with_label_values(&tv).ok()?.set((i + 1) as f64); } AnyColl::GV(v) }
+            if kind == "countervec" { let v = CounterVec::new(opts_of(&name, &help, &consts), &vnames).ok()?; for (i, t) in tuples.iter().enumerate() { let tv: Vec<&str> = t.iter().map(|s| s.as_str()).collect();
+                // every child is addressed by position AND by name: both forms must reach the same child (gather shows each label set once)
+                let by_pos = v.get_metric_with_label_values(&tv).ok()?; let by_name = v.get_metric_with(&vnames.iter().cloned().zip(tv.iter().cloned()).collect::<HashMap<&str, &str>>()).ok()?;
+                if i % 2 == 0 { by_pos.inc_by((i + 1) as f64); by_name.inc_by(0.0); } else { by_name.inc_by((i + 1) as f64); by_pos.inc_by(0.0); } } AnyColl::CV(v) }
+            else { let v = GaugeVec::new(opts_of(&name, &help, &consts), &vnames).ok()?; for (i, t) in tuples.iter().enumerate() { let tv: Vec<&str> = t.iter().map(|s| s.as_str()).collect();
+                let by_pos = v.get_metric_with_label_values(&tv).ok()?; let by_name = v.get_metric_with(&vnames.iter().cloned().zip(tv.iter().cloned()).collect::<HashMap<&str, &str>>()).ok()?;
+                if i % 2 == 0 { by_pos.set((i + 1) as f64); by_name.add(0.0); } else { by_name.set((i + 1) as f64); by_pos.add(0.0); } } AnyColl::GV(v) }
         }
         "custom" => {
             let mut descs = vec![]; let mut fams = vec![]; let mut sds = vec![]; let mut lnames = vec![];
@@ -175,9 +180,20 @@ impl Area for RegArea {
             rng.shuffle(&mut v); pairs_str(&v) };
         let mut lines = vec![format!("reg new prefix={} labels={}", prefix, labels)];
         let ndef = rng.range(2, 6);
-        for i in 0..ndef {
-            if i > 0 && rng.chance(40) { let src = lines[rng.range(1, i)].clone(); if let Some(l) = sibling(&src, i, rng) { stats.hit("def:sibling-same-name"); lines.push(l); continue; } }
-            lines.push(gen_def(rng, i, stats));
+        let mut i = 0;
+        while i < ndef {
+            // twins whose descriptors differ only in where a U+00FF sits relative to a field boundary (the separator BYTE 0xff never occurs in UTF-8 text, the CHARACTER does):
+            // ids must differ (both admitted), dimension signatures must differ (the second refused)
+            if i + 1 < ndef && rng.chance(10) {
+                let name = *rng.pick(NAMES); let kind = *rng.pick(&["counter", "gauge", "intcounter"]);
+                let (h0, c0, h1, c1): (&str, Vec<(&str, &str)>, &str, Vec<(&str, &str)>) = if rng.chance(50) { stats.hit("def:twin-id-boundary"); ("h", vec![("k", "1\u{ff}x"), ("z", "ab")], "h", vec![("k", "1"), ("z", "x\u{ff}ab")]) }
+                    else { stats.hit("def:twin-dim-boundary"); ("h", vec![("a", "x")], "h\u{ff}a", vec![]) };
+                for (j, (h, c)) in [(h0, c0), (h1, c1)].iter().enumerate() { let mut cs: Vec<(String, String)> = c.iter().map(|(a, b)| (a.to_string(), b.to_string())).collect(); rng.shuffle(&mut cs);
+                    lines.push(format!("reg def c{} kind={} name={} help={} consts={} vars=- val={}", i + j, kind, hex(name), hex(h), pairs_str(&cs), f64_hex((j + 1) as f64))); }
+                i += 2; continue;
+            }
+            if i > 0 && rng.chance(40) { let src = lines[rng.range(1, i)].clone(); if let Some(l) = sibling(&src, i, rng) { stats.hit("def:sibling-same-name"); lines.push(l); i += 1; continue; } }
+            lines.push(gen_def(rng, i, stats)); i += 1;
         }
         let nops = rng.range(4, if thorough { 40 } else { 16 });
         for _ in 0..nops {
@@ -258,6 +274,10 @@ impl Area for RegArea {
                         let e = want.entry(f.name().to_string()).or_insert((f.help().to_string(), format!("{:?}", f.get_field_type()).to_lowercase(), vec![]));
                         // canonical form: a sample's own labels in label-name order (what makes the positional comparison of values meaningful)
                         for m in f.get_metric() { let mut ls: Vec<(String, String)> = m.get_label().iter().map(|p| (p.name().to_string(), p.value().to_string())).collect(); ls.sort_by(|a, b| a.0.cmp(&b.0)); e.2.push((ls, show_sample_val(f.get_field_type(), m))); } } }
+                    // each sample once: a library collector (not a hand-built one) never reports two samples with the same label set, however its children were addressed
+                    for (_, c, _) in &registered { if let AnyColl::X(_) = c { continue; } for f in c.boxed().collect() { let mut seen = BTreeSet::new();
+                        for m in f.get_metric() { let mut ls: Vec<(String, String)> = m.get_label().iter().map(|p| (p.name().to_string(), p.value().to_string())).collect(); ls.sort();
+                            if !seen.insert(ls.clone()) { fails.push(Failure { class: "gather-mismatch".into(), detail: format!("family {} of one collector holds two samples with the label set {:?} (a child addressed by position and by name must be one child); gathered: {}", f.name(), ls, show_gather(&got)) }); } } } }
                     let mut cl = common.clone(); cl.sort();
                     let want_s: Vec<String> = want.iter().map(|(n, (h, t, ss))| { let mut ss = ss.clone(); ss.sort_by(|a, b| (a.0.len(), a.0.iter().map(|p| p.1.clone()).collect::<Vec<_>>()).cmp(&(b.0.len(), b.0.iter().map(|p| p.1.clone()).collect::<Vec<_>>())));
                         format!("{}^{}^{}^{}", hex_list(&[&match &prefix { Some(p) => format!("{}_{}", p, n), None => n.clone() }]), hex_list(&[h]), t, ss.iter().map(|(l, v)| { let mut l = l.clone(); l.extend(cl.iter().cloned()); format!("{}={}@0", pairs_str(&l), v) }).collect::<Vec<_>>().join(";")) }).collect();
